@@ -215,6 +215,19 @@ func c05(args []string) {
 		typ := 1005 + i%2
 		emit(typ, coord(rng.Intn(40)), coord(rng.Intn(40)), coord(rng.Intn(40)), uint64(rng.Intn(65536)), rng.Intn(12)*(i%3), "random")
 	}
+	// long frames: trailing bytes up to the largest payload (1023), payload lengths around the multiples of 256
+	for _, typ := range []int{1005, 1006} {
+		base := 19
+		if typ == 1006 {
+			base = 21
+		}
+		for _, plen := range []int{255, 256, 257, 256 + base - 1, 256 + base, 511, 512, 512 + base, 767, 768, 768 + base - 1, 768 + base, 1000, 1023} {
+			if plen < base {
+				continue
+			}
+			emit(typ, coord(rng.Intn(40)), coord(rng.Intn(40)), coord(rng.Intn(40)), uint64(rng.Intn(65536)), plen-base, "long")
+		}
+	}
 	// every truncation length and wrong types
 	for _, typ := range []int{1005, 1006} {
 		full := build1005(typ, 1, 2, 3, coord(20), 1, coord(21), 2, coord(22), 777, make([]byte, 6), typ == 1006)
